@@ -41,3 +41,64 @@ def const_divisors():
     # reciprocal, its debug re-derivation and one operand of every product are constants - and gave no verdict in 1500 s resp.
     # 900 s for any of them, not even d = 2^127.  Not registered; the bodies stay in c14.rs.
     return []
+
+
+def _all():
+    out = []
+    out.append(H("c14_reciprocal", "C14", "c14::reciprocal", unwind=3, tier="quick", timeout=1800,
+                 inst="reciprocal(u64)", fns=["reciprocal"], free_bits=13,
+                 domain="d = 1 | row(8 free bits: all 256 table rows) | fill(all zeros / all ones) | low(4 free bits); "
+                        "oracle native u128 division", covers_required=["row-0", "row-255"]))
+    out.append(H("c14_reciprocal_extremes", "C14", "c14::reciprocal_extremes", unwind=3, tier="quick", timeout=600,
+                 inst="reciprocal, reciprocal_2", fns=["reciprocal", "reciprocal_2"], free_bits=1,
+                 domain="d = 2^63, 2^64-1, 2^127, 2^128-1"))
+    out.append(H("c14_reciprocal_2", "C14", "c14::reciprocal_2", unwind=68, tier="thorough", timeout=3600,
+                 inst="reciprocal_2(u128)", fns=["reciprocal_2"], free_bits=19,
+                 domain="d1 = 1|row(8)|fill, d0 = pattern limb; oracle: defining inequality by shift-and-add"))
+    out.append(H("c14_div_2x1", "C14", "c14::div_2x1", unwind=3, tier="thorough", timeout=3600, inst="div_2x1",
+                 fns=["div_2x1", "reciprocal"], free_bits=20,
+                 domain="d = 1|row in {0,85,170,255}|fill|low(2); q pattern limb (8 free bits x 4 placements); r small or "
+                        "d-1-small; u = q*d + r built exactly (measured 632 s)"))
+    RS = [("ruint::algorithms::div::reciprocal::reciprocal_mg10", "stubs::reciprocal_spec")]
+    out.append(H("c14_div_2x1_spec", "C14", "c14::div_2x1", unwind=3, tier="thorough", timeout=3600, inst="div_2x1",
+                 fns=["div_2x1"], free_bits=20, stubs=RS, abstract=True,
+                 domain="as c14_div_2x1, with reciprocal() replaced by its specification (unique v with "
+                        "(2^64+v)*d <= 2^128-1 < (2^64+v+1)*d), which c14_reciprocal decides separately"))
+    RS2 = RS + [("ruint::algorithms::div::reciprocal::reciprocal_2_mg10", "stubs::reciprocal_2_spec")]
+    out.append(H("c14_div_3x2_spec", "C14", "c14::div_3x2", unwind=5, tier="thorough", timeout=7200, inst="div_3x2",
+                 fns=["div_3x2"], free_bits=30, stubs=RS2, abstract=True,
+                 domain="d1 = 1|row in {0,85,170,255}|fill, d0 pattern limb; q pattern limb; r small or d-1-small; "
+                        "u = q*d + r built exactly; reciprocal_2() replaced by its specification"))
+    h = shape("nx1_3_norm_spec", 3, 1, 0x5, 0, tier="thorough", timeout=7200)
+    h.stubs = RS
+    h.abstract = True
+    out.append(h)
+    out.append(H("c14_div_3x2", "C14", "c14::div_3x2", unwind=5, tier="quick", timeout=1800, inst="div_3x2",
+                 fns=["div_3x2", "reciprocal_2"], free_bits=38,
+                 domain="d1 = 1|row(8)|fill, d0 pattern limb; q pattern limb; r small or d-1-small; u = q*d + r"))
+    # kernels at fixed shapes
+    out.append(shape("nx1_3_norm", 3, 1, 0x5, 0))
+    out.append(shape("nx1_3_unnorm", 3, 1, 0x8, 0))
+    out.append(shape("nx1_2_small", 2, 1, 0x2, 0, tier="thorough"))
+    out.append(shape("nx1_4_ones", 4, 1, 0x1, 0, tier="thorough"))
+    out.append(shape("nx2_3_norm", 3, 2, 0x52, 1))
+    out.append(shape("nx2_3_unnorm", 3, 2, 0x81, 1))
+    out.append(shape("nx2_4_one", 4, 2, 0x63, 1, tier="thorough"))
+    out.append(shape("nxm_4x3_norm", 4, 3, 0x522, 2, timeout=2400))
+    out.append(shape("nxm_4x3_unnorm", 4, 3, 0x813, 2, timeout=2400))
+    out.append(shape("nxm_3x3_ones", 3, 3, 0x511, 2, tier="thorough", timeout=2400))
+    out.append(shape("nxm_5x3_unnorm", 5, 3, 0x892, 2, tier="thorough", timeout=3600))
+    out.append(shape("nxm_5x4_norm", 5, 4, 0x5203, 2, tier="thorough", timeout=3600))
+    # algorithms::div: dispatch + trimming + padding
+    out.append(shape("div_1x1_pad1", 1, 1, 0x8, 3, pad=1))
+    out.append(shape("div_2x1_pad1", 2, 1, 0x5, 3, pad=1))
+    out.append(shape("div_2x2_pad0", 2, 2, 0x82, 3, pad=0))
+    out.append(shape("div_3x2_pad1", 3, 2, 0x53, 3, pad=1, tier="thorough"))
+    out.append(shape("div_4x3_pad1", 4, 3, 0x822, 3, pad=1, tier="thorough", timeout=3600))
+    out.append(shape("div_3x3_pad2", 3, 3, 0x612, 3, pad=2, tier="thorough", timeout=3600))
+    for (nn, ndl, dc) in [(1, 2, 0x52), (2, 3, 0x812), (1, 4, 0x6000)]:
+        out.append(H("c14_div_short_%dx%d" % (nn, ndl), "C14", "c14::div_short::<%d,%d,%d>" % (nn, ndl, dc),
+                     unwind=8, tier="quick", timeout=900, inst="algorithms::div, numerator %d < divisor %d limbs" % (nn, ndl),
+                     domain="numerator zero or pattern limbs, divisor by codes %x" % dc, free_bits=10 * nn + 17,
+                     fns=["algorithms::div"], role="c14::div_short"))
+    return out
